@@ -79,7 +79,11 @@ def check_case_filter(ctx, c):
             ctx.ob('R8.1', key, loc, 'exactly one yield per input token', False, f'{len(ys)} yields, exit {p.exit}: a token is dropped or duplicated')
             continue
         y = ys[0].value.value
-        ok = isinstance(y, ast.Tuple) and len(y.elts) == 2 and is_name(y.elts[0], tv) and is_name(y.elts[1], vv)
+        def val_ok(e):
+            # the value itself, or self.convert(value) written in place
+            return is_name(e, vv) or (isinstance(e, ast.Call) and is_attr(e.func, 'convert', 'self') and len(e.args) == 1
+                                      and is_name(e.args[0], vv) and not e.keywords)
+        ok = isinstance(y, ast.Tuple) and len(y.elts) == 2 and is_name(y.elts[0], tv) and val_ok(y.elts[1])
         t_stores = [s for s in st if isinstance(s, ast.Assign) and any(is_name(t, tv) for t in s.targets)]
         v_stores = [s for s in st if isinstance(s, (ast.Assign, ast.AugAssign)) and any(
             is_name(t, vv) for t in (s.targets if isinstance(s, ast.Assign) else [s.target]))]
